@@ -12,10 +12,9 @@ Proof. vm_compute. reflexivity. Qed.
 Lemma gen_limit_ok : limit_ok gen_cfg.
 Proof. intros a b Ha Hb. unfold gen_cfg, C01Facts.limit_merge; cbn [Chain.limit_merge]. lia. Qed.
 
-Lemma gen_group_wrapper_same :
-  forallb (fun l => forallb (fun n => Bool.eqb (wrap_needed_df l n) (wrap_needed_group l n)) all_opk) all_opk
-  && Bool.eqb init_wraps_df init_wraps_group = true.
-Proof. vm_compute. reflexivity. Qed.
+(** orderBy replaces an ORDER BY already present in the open block (fixed defect; see known_findings) *)
+Lemma gen_order_replaces : order_append = false.
+Proof. reflexivity. Qed.
 
 Lemma gen_new_kind_is_model :
   forallb (fun o => forallb (fun l =>
